@@ -1380,6 +1380,16 @@ class ForAll(BinaryOperator):
         return [v.id_ for v in self.condition._unique_variables_.difference(self.left._unique_variables_)
                 if not isinstance(v.value, Literal)]
 
+    @lru_cache(maxsize=None)
+    def _required_variables_from_child_(self, child: Optional[SymbolicExpression] = None, when_true: bool = True):
+        required_vars = HashedIterable()
+        required_vars.update(super()._required_variables_from_child_(child, when_true))
+        if child is self.condition:
+            # The condition is evaluated once per universal value, so its outputs are only duplicates of each other
+            # when they also agree on that value.
+            required_vars.update(self.variable._unique_variables_)
+        return required_vars
+
     def _evaluate__(self, sources: Optional[Dict[int, HashedValue]] = None,
                     yield_when_false: bool = False) -> Iterable[Dict[int, HashedValue]]:
         sources = sources or {}
